@@ -1,0 +1,15 @@
+//go:build verif
+
+package open_game_manager
+
+// VerifWrapReadyCallback lets a monitor wrap the manager's OnOpenGameReady
+// callback (to observe "gate fired" / "gate callback returned").
+// Compiled in with `-tags verif` only.
+func VerifWrapReadyCallback(m OpenGameManager, wrap func(orig func(OpenGameState)) func(OpenGameState)) bool {
+	om, ok := m.(*openGameManager)
+	if !ok {
+		return false
+	}
+	om.onOpenGameReady = wrap(om.onOpenGameReady)
+	return true
+}
